@@ -10,3 +10,28 @@ CONTRACTS += [PolarsCheckNullable, PolarsCheckUnique]
 from contracts.C05_multiindex_validate import MultiIndexCoerceDtype  # noqa: E402  (row labels: the coerced MultiIndex keeps the data's level order)
 
 CONTRACTS += [MultiIndexCoerceDtype]
+
+import z3  # noqa: E402
+
+from pyvc import core  # noqa: E402
+from pyvc.core import SBool, cur  # noqa: E402
+from contracts.C19_check_options import PostprocessField  # noqa: E402
+from contracts.util import fld0  # noqa: E402
+
+
+class PostprocessFieldReportsEveryFailingRow(PostprocessField):
+    """C11 view of postprocess_field: drop_invalid_rows removes the rows the collected errors REPORT (failure_cases['index']), so every
+    failing row has to be among the failure cases - also when `n_failure_cases` asks for a shorter report (C19: that option only
+    shortens what is shown; it must not change which rows survive)."""
+
+    def ensures(self, result, old, self_, check_obj, check_output):
+        fc = result.attrs["failure_cases"]
+        if fc is None:
+            return {"nothing_failed_nothing_to_report": True}
+        i = z3.Int(cur().fresh_name("row"))
+        core.register_model_var("row", i)
+        failing = z3.And(check_obj.sel(i), z3.Not(core.as_z3_bool(check_output.at(i))))
+        return {"every_failing_row_is_among_the_failure_cases_drop_invalid_rows_reads": SBool(z3.Implies(failing, fc.sel(i)))}
+
+
+CONTRACTS += [PostprocessFieldReportsEveryFailingRow]
